@@ -81,9 +81,9 @@ func main() {
 	cw := hlib.NewCaseWriter(f.Out, "From Coq Require Import List NArith Bool.\nFrom GQ Require Import Model.C07.\nImport ListNotations.\nLocal Open Scope N_scope.\n", "C07.case", 60)
 	w := newWorld(bigInt(1337))
 	rc := &runCtx{seed: f.Seed, rep: rep, cw: cw, verbose: os.Getenv("C07_VERBOSE") != ""}
-	// plan: N = total number of blocks, spread over chains of 40 (quick) / 60 (thorough) blocks
-	rc.blocks = 40
-	rc.mutPct = 30
+	// plan: N = total number of blocks, spread over chains of 30 (quick) / 60 (thorough) blocks
+	rc.blocks = 30
+	rc.mutPct = 28
 	rc.caseEvery = 5
 	if f.Tier == "thorough" {
 		rc.blocks = 60
